@@ -4,7 +4,7 @@ COMMON_NOTE = ("Trusted: Lean 4.33.0 kernel; axioms propext, Classical.choice, Q
 
 # suite: harness -suite name, Lean driver name (Main.lean argument, module CantoVerif.Driver.<Capitalised>), op counts, accept floor (%)
 SUITES = {
-    "epochs": dict(quick_ops=9000, thorough_ops=60000, driver="epochs", accept_floor=50),
+    "epochs": dict(quick_ops=20000, thorough_ops=60000, driver="epochs", accept_floor=50),
 }
 
 _EP_ASSUME = [
@@ -38,7 +38,8 @@ PROPS = {
             "CV.Inflation.provision_range", "CV.Inflation.provision_antitone", "CV.Inflation.provision_antitone_run",
             "CV.Inflation.provision_antitone_le", "CV.Dec.powerN_antitone", "CV.Inflation.boundary_arith", "CV.Inflation.period_count",
             "CV.Inflation.countInv_fresh", "CV.Inflation.provision_changes_only_at_boundaries", "CV.Inflation.other_ops_frame",
-            "CV.Inflation.c13_sample_monitors_model", "CV.Inflation.block_cases",
+            "CV.Inflation.c13_sample_monitors_model", "CV.Inflation.c13_block_monitors_model", "CV.Inflation.c13_other_monitors_model",
+            "CV.Inflation.provision_integral", "CV.Inflation.block_cases", "CV.Inflation.block_summary",
         ],
         comps={"outcome", "resp", "infl", "ghost"},
         assumptions=_EP_ASSUME,
@@ -51,6 +52,7 @@ PROPS = {
             "CV.Inflation.module_empty", "CV.Inflation.alloc_frame", "CV.Inflation.disabled_skip", "CV.Inflation.other_id_noop",
             "CV.Inflation.block_effect", "CV.Inflation.ledger_history", "CV.Inflation.ghost_counts", "CV.Inflation.afterEpochEnd_cases",
             "CV.Inflation.mintAndAllocate_ok", "CV.Inflation.sweep_ok", "CV.Inflation.stakingShare_ok", "CV.Bank.applyAll_flow",
+            "CV.Inflation.c05_monitors_model", "CV.Inflation.block_summary",
         ],
         comps={"outcome", "bank", "pool", "infl", "ghost"},
         assumptions=_EP_ASSUME,
@@ -68,7 +70,7 @@ TEXT = {
               "histories of blocks, parameter updates and transfers: the end-of-epoch numbers announced per identifier are 2,3,...,CurrentEpoch), "
               "and c12_monitors_model (the eight predicates the driver evaluates hold on every model transition). Tie to the code: step-wise "
               "correspondence on the real EpochsKeeper.BeginBlocker over the app's store with a recording listener in front of the real "
-              "inflation listener (9000 ops quick, 8x60000 thorough; sub-second steps, exact boundary hits, +-1ns, gaps of several durations, "
+              "inflation listener (20000 ops quick, 8x60000 thorough; sub-second steps, exact boundary hits, +-1ns, gaps of several durations, "
               "start before/at/after the first block, up to six identifiers ticking in one block, durations from 1ns to a week, and a negative one)."),
         note=COMMON_NOTE + "Times are unbounded integers (no time.Time / int64 overflow). History theorems assume unique identifiers (store keys). "
              "tick_iff needs `start <= now` for a counting record; start_time_formula shows this holds along every monotone history."),
